@@ -2507,6 +2507,14 @@ impl<'a> Visitor<'a, '_, Error> for JSONValidator<'a> {
       } => {
         if let Some(ga) = generic_args {
           if let Some(rule) = rule_from_ident(self.state.cddl, ident) {
+            // Applying arguments validates the rule on a fresh validator, which
+            // would forget the recursion guard: the same rule applied again to
+            // the same value makes no progress (`a = a<int>`)
+            let visited_key = format!("generic\u{0}{}\u{0}{}", ident.ident, self.json);
+            if self.state.visited_rules.contains(&visited_key) {
+              return Ok(());
+            }
+
             if let Some(gr) = self
               .state
               .generic_rules
@@ -2540,6 +2548,8 @@ impl<'a> Visitor<'a, '_, Error> for JSONValidator<'a> {
             let mut jv = JSONValidator::new(self.state.cddl, self.json.clone());
 
             jv.state.generic_rules = self.state.generic_rules.clone();
+            jv.state.visited_rules = self.state.visited_rules.clone();
+            jv.state.visited_rules.insert(visited_key);
             jv.state.eval_generic_rule = Some(ident.ident);
             jv.state.is_multi_type_choice = self.state.is_multi_type_choice;
             jv.visit_rule(rule)?;
